@@ -14,7 +14,10 @@ NEEDS = ["model/Values.v", "model/Eval.v", "model/Loader.v", "model/Serialize.v"
 
 
 def gen_text(rng, i):
-    tdm = i % 9 == 0
+    if i % 9 == 0:
+        # tdm programs: p-arrays by name, the variable block, strings that look like p-names
+        from props.c15 import tdm_script
+        return tdm_script(rng, with_params=False, with_loop=(i % 2 == 0))[0]
     g = Gen(rng, allow_params=(i % 2 == 0), allow_regs=(i % 3 == 0), tdm=False)
     g.real_sym_coeffs = True
     lines = g.header() + [""]
@@ -85,7 +88,9 @@ def check_case(model, impl, text, stats, generations=3):
 
 TRICKY = ["-({a}**2)", "-({a}**2)*{b}", "0 - {a}**2/3", "-({a}+{b})**2", "{b}**(-({a}**2))", "-(2**{a}) + {b}", "-({a}**2)*{b}*pi", "-{a}*{b}**2",
           "{a}/({b}**2) - {a}**2", "-({a}*{b})**2", "1/({a}+{b}) - {a}**2/5", "-(q0**2)*q1", "-(q0**2)/3 + q1", "(0-1)*{a}**3", "-({a}**2)/({b}**2)",
-          "2j*{a} - ({a}**2)*1j", "-(q1**2)*0.5j", "{a}**2**2", "-{a}**2", "(-{a})**3", "-(-{a})**2"]
+          "2j*{a} - ({a}**2)*1j", "-(q1**2)*0.5j", "{a}**2**2", "-{a}**2", "(-{a})**3", "-(-{a})**2",
+          "-(0.00002**{a})", "-(1e20**{a})*3", "-(2.5**{a})*{b}", "-(pi**{a})", "{b} - 3e-9**{a}", "-(0.5**{a})/{b}", "1e-10*{a} - 1e22*{b}**2",
+          "-(1e-7**q0)", "-(2.5e-5**q1)*q0", "-1.5e-8*{a}**2"]
 
 
 def tricky_text(rng):
